@@ -150,6 +150,9 @@ type c18Req struct {
 	Kind string `json:"kind"` // get list count partitions stream create update delete udelete compact watch put deleterange
 	K    int    `json:"key"`
 	Exp  string `json:"exp,omitempty"`
+	// AtRev (get / list): "" = latest; "own" = pinned to the revision this node currently has; "older" = one below
+	// (what a paginated list or a consistent re-read sends). Pinned or not, a follower has to ask the leader first
+	AtRev string `json:"atrev,omitempty"`
 	// AdvanceLeader: the leader commits this many further revisions before the request is invoked
 	AdvanceLeader int `json:"advance,omitempty"`
 	// Overlap: issue this many copies of a read concurrently while the leader's /status answer is delayed, so that
@@ -177,6 +180,9 @@ func genC18(t *rapid.T) interface{} {
 		switch rapid.IntRange(0, 9).Draw(t, "class") {
 		case 0, 1, 2, 3:
 			r.Kind = rapid.SampledFrom(c18Reads).Draw(t, "read")
+			if r.Kind == "get" || r.Kind == "list" {
+				r.AtRev = rapid.SampledFrom([]string{"", "", "own", "older"}).Draw(t, "atRev")
+			}
 		case 4, 5, 6, 7:
 			r.Kind = rapid.SampledFrom(c18Writes).Draw(t, "write")
 			r.Exp = rapid.SampledFrom([]string{"ok", "stale", "zero"}).Draw(t, "exp")
@@ -289,11 +295,20 @@ func (n *c18Node) issue(r c18Req, exp int64, val []byte) (err error, proxied boo
 	key := []byte(n.env.Keys[r.K%len(n.env.Keys)])
 	end := backend.PrefixEnd([]byte(Prefix + "/"))
 	t0, w0 := n.proxy.txns, n.proxy.watches
+	var atRev uint64
+	switch r.AtRev {
+	case "own":
+		atRev = n.env.B.GetCurrentRevision()
+	case "older":
+		if cur := n.env.B.GetCurrentRevision(); cur > n.env.Init+1 {
+			atRev = cur - 1
+		}
+	}
 	switch r.API + ":" + r.Kind {
 	case "etcd:get":
-		_, err = n.etcdSrv.Range(ctx, &etcdserverpb.RangeRequest{Key: key})
+		_, err = n.etcdSrv.Range(ctx, &etcdserverpb.RangeRequest{Key: key, Revision: int64(atRev)})
 	case "etcd:list":
-		_, err = n.etcdSrv.Range(ctx, &etcdserverpb.RangeRequest{Key: []byte(Prefix + "/"), RangeEnd: end})
+		_, err = n.etcdSrv.Range(ctx, &etcdserverpb.RangeRequest{Key: []byte(Prefix + "/"), RangeEnd: end, Revision: int64(atRev)})
 	case "etcd:count":
 		_, err = n.etcdSrv.Range(ctx, &etcdserverpb.RangeRequest{Key: []byte(Prefix + "/"), RangeEnd: end, CountOnly: true})
 	case "etcd:partitions":
@@ -367,9 +382,9 @@ func (n *c18Node) issue(r c18Req, exp int64, val []byte) (err error, proxied boo
 	case "etcd:etcdcompact":
 		_, err = n.etcdSrv.Compact(ctx, &etcdserverpb.CompactionRequest{Revision: 5})
 	case "brain:get":
-		_, err = n.brainSrv.Get(ctx, &proto.GetRequest{Key: key})
+		_, err = n.brainSrv.Get(ctx, &proto.GetRequest{Key: key, Revision: atRev})
 	case "brain:list":
-		_, err = n.brainSrv.Range(ctx, &proto.RangeRequest{Key: []byte(Prefix + "/"), End: end})
+		_, err = n.brainSrv.Range(ctx, &proto.RangeRequest{Key: []byte(Prefix + "/"), End: end, Revision: atRev})
 	case "brain:count":
 		_, err = n.brainSrv.Count(ctx, &proto.CountRequest{Key: []byte(Prefix + "/"), End: end})
 	case "brain:partitions":
